@@ -5,6 +5,8 @@
 package obfs4
 
 // ---- representation invariants of an established connection ----
+// ghost: did the last network read of readPackets fail?
+//@ ghostfield obfs4.obfs4Conn lastReadFailed Bool
 //@ pred rxInv(conn) := conn != nil && conn.Conn != nil
 //@     && conn.receiveBuffer != nil && whole(conn.receiveBuffer) && conn.receiveDecodedBuffer != nil && whole(conn.receiveDecodedBuffer)
 //@     && conn.receiveBuffer != conn.receiveDecodedBuffer
@@ -88,12 +90,15 @@ package obfs4
 //@   ensures [C10:decoded_bound] len(conn.receiveDecodedBuffer.content) - len(D0) <= (len(R0) + 23168) - len(conn.receiveBuffer.content)
 //@   ensures [C01:one_network_read] blocked == old(blocked) + 1 && conn.Conn.nreads == old(conn.Conn.nreads) + 1
 //@   ensures rxInv(conn) && distOK(conn)
+//@   modifies conn.lastReadFailed
+//@   ghostset conn.lastReadFailed := rdErr != nil
+//@   ensures [C10,C01:read_error_is_never_masked_by_a_retry_request] conn.lastReadFailed ==> err != nil && !issentinel(err)
 
 //@ func (*obfs4Conn).Read(conn, b) (n, err)
 //@   serves C01 C05 C10
 //@   requires rxInv(conn) && distOK(conn) && outside(b, conn) && outside(b, conn.receiveDecodedBuffer) && outside(b, conn.receiveBuffer) && outside(b, conn.decoder) && outside(b, conn.decoder.drbg) && outside(b, conn.decoder.drbg.sip) && outside(b, conn.lenDist) && outside(b, conn.iatDist)
 //@   requires [C01:no_block_with_frame_buffered] len(conn.receiveDecodedBuffer.content) == 0 ==> needMore(conn.decoder, conn.receiveBuffer)
-//@   modifies conn.receiveBuffer.*, conn.receiveDecodedBuffer.*, conn.decoder.nextLength, conn.decoder.nextLengthInvalid, conn.decoder.nextNonce, conn.decoder.nonce.counter, conn.decoder.drbg.sip.absorbed, conn.decoder.drbg.ofb
+//@   modifies conn.receiveBuffer.*, conn.receiveDecodedBuffer.*, conn.decoder.nextLength, conn.decoder.nextLengthInvalid, conn.decoder.nextNonce, conn.decoder.nonce.counter, conn.decoder.drbg.sip.absorbed, conn.decoder.drbg.ofb, conn.lastReadFailed
 //@   modifies elems(conn.readBuffer), conn.Conn.rd, conn.Conn.nreads, blocked, elems(b)
 //@   modifies conn.lenDist.values, conn.lenDist.weights, conn.lenDist.alias, conn.lenDist.prob, conn.iatDist.values, conn.iatDist.weights, conn.iatDist.alias, conn.iatDist.prob
 //@   ghost D0 := conn.receiveDecodedBuffer.content
@@ -173,7 +178,7 @@ package obfs4
 //@   loop 1 invariant sub(seq(resp), pos, pos + 16) == sub(HASH(1, hs.mac.hkey, seq(hs.clientRepresentative)), 0, 16)
 //@   loop 1 invariant forall(j, 0, 3, -1 <= aget(arr(&slicelit), j) && aget(arr(&slicelit), j) <= 1)
 //@   loop 1 invariant [C04:replay_rejected] filter.ntests > nt0 ==> !filter.lastseen
-//@   loop 1 invariant [C04:found_means_tested] macFound ==> filter.ntests > nt0 && filter.lasttested == sub(seq(resp), pos + 16, pos + 32)
+//@   loop 1 invariant [C04,C06:found_means_tested] macFound ==> filter.ntests > nt0 && filter.lasttested == sub(seq(resp), pos + 16, pos + 32)
 //@       && sub(seq(resp), pos + 16, pos + 32) == sub(HASH(1, hs.mac.hkey, cat(sub(seq(resp), 0, pos + 16), seq(hs.epochHour))), 0, 16)
 //@       && exists(h, (now0 / 1000000000) / 3600 - 1, (now / 1000000000) / 3600 + 2, seq(hs.epochHour) == fmtInt(h, 10))
 //@   ensures [C04:state] shsInv(hs) && hsApart(hs, filter)
@@ -184,7 +189,7 @@ package obfs4
 //@   ensures [C10:not_yet_means_short] err == ErrMarkNotFoundYet ==> len(resp) < 8192
 //@   ensures [C04:no_trailing] err == nil ==> 141 <= len(resp) && len(resp) <= 8192 && hs.clientRepresentative != nil && len(seed) == 32
 //@   ensures [C04:mark_checked] err == nil ==> sub(seq(resp), len(resp) - 32, len(resp) - 16) == sub(HASH(1, hs.mac.hkey, seq(hs.clientRepresentative)), 0, 16)
-//@   ensures [C04:mac_bound_to_hour] err == nil ==> sub(seq(resp), len(resp) - 16, len(resp)) == sub(HASH(1, hs.mac.hkey, cat(sub(seq(resp), 0, len(resp) - 16), seq(hs.epochHour))), 0, 16)
+//@   ensures [C04,C06:mac_bound_to_hour] err == nil ==> sub(seq(resp), len(resp) - 16, len(resp)) == sub(HASH(1, hs.mac.hkey, cat(sub(seq(resp), 0, len(resp) - 16), seq(hs.epochHour))), 0, 16)
 //@   ensures [C04:hour_window] err == nil ==> exists(h, (now0 / 1000000000) / 3600 - 1, (now / 1000000000) / 3600 + 2, seq(hs.epochHour) == fmtInt(h, 10))
 //@   ensures [C04:test_and_set] err == nil ==> filter.ntests > nt0 && !filter.lastseen && filter.lasttested == sub(seq(resp), len(resp) - 16, len(resp))
 //@   ensures [C04:replay_rejected] filter.ntests > nt0 && filter.lastseen ==> err == ErrReplayedHandshake
